@@ -250,7 +250,9 @@ def kinds(ctx, lim):
     rep = ctx.rep
     cases = [('Limit', 'complex z0', dict(), 'c', 'f'), ('Limit', 'spiral path', dict(path='spiral'), 'f', 'f'),
              ('Limit', 'complex valued f', dict(), 'f', 'c'), ('Residue', 'complex z0', dict(pole_order=2), 'c', 'f'),
-             ('Residue', 'spiral path', dict(path='spiral'), 'f', 'f'), ('Limit', 'complex z0 below', dict(method='below'), 'c', 'c')]
+             ('Residue', 'spiral path', dict(path='spiral'), 'f', 'f'), ('Limit', 'complex z0 below', dict(method='below'), 'c', 'c'),
+             ('Limit', 'spiral path, complex valued f', dict(path='spiral'), 'f', 'c'),
+             ('Residue', 'spiral path, complex valued f', dict(path='spiral', pole_order=2), 'f', 'c')]
     for cls, what, kw, xk, fk in cases:
         def body(s, cls=cls, kw=kw, xk=xk, fk=fk):
             I = s.interp
@@ -269,5 +271,15 @@ def kinds(ctx, lim):
         ex = explore(ctx.repo, body, pinned={'(np.abs(step) > 0).all()': True})
         bad = [{'raises': exc.exc_name, 'message': exc.msg[:100], 'path': ', '.join('%s=%s' % (d[1][:25], d[0]) for d in dec)}
                for dec, r, exc in ex.paths if exc is not None]
+        # the value returned is the complex limit itself (a numpy array is complex as soon as one element is): no projection
+        for dec, r, exc in ex.paths:
+            if exc is not None or 'c' not in (xk, fk):
+                continue          # (only where the data is complex by construction of the case)
+            val = r[0] if isinstance(r, tuple) else r
+            elems = val.items() if isinstance(val, Arr) else [val]
+            if elems and not any(isinstance(v, DV) and v.kind in ('c', 'z') for v in elems):
+                bad.append({'result_kind': sorted({getattr(v, 'kind', '?') for v in elems}),
+                            'path': ', '.join('%s=%s' % (d[1][:25], d[0]) for d in dec)})
         rep.check(not bad, 'R-KIND', 'limits._Limit._add_error_to_outliers', lim.relpath, {'paths': len(ex.paths), 'exceptions': bad[:2]},
-                  'complex data never reaches a real-only kernel', '%s/%s' % (cls, what), key='kind %s' % cls)
+                  'complex data never reaches a real-only kernel and the complex limit is returned as such', '%s/%s' % (cls, what),
+                  key='kind %s' % cls)
